@@ -313,7 +313,12 @@ func ToDateTime(ctx *expr.Context, input system.Collection, args ...expr.Express
 	case system.String:
 		result, err := system.ParseDateTime(string(value))
 		if err != nil {
-			return system.Collection{}, nil
+			// a partial DateTime that stops at the year, month or day is written like a Date
+			date, err := system.ParseDate(string(value))
+			if err != nil {
+				return system.Collection{}, nil
+			}
+			return system.Collection{date.ToDateTime()}, nil
 		}
 		return system.Collection{result}, nil
 	}
